@@ -35,10 +35,15 @@ from typing import Optional as Opt
 from engine.ch import ok
 
 THOROUGH = os.environ.get('C28_TIER') == 'thorough'
-IDX_LO, IDX_HI = (-6, 6) if THOROUGH else (-2, 4)        # list index / slice bound range
+IDX_LO, IDX_HI = (-6, 6) if THOROUGH else (-2, 4)        # list index range (lists have 2..4 items)
+SL_LO, SL_HI = (-3, 4) if THOROUGH else (-1, 2)          # slice bound range (None is always included)
+STEPS = (None, -1, 2, 1, -2) if THOROUGH else (None, -1, 2)
+NSTEP = len(STEPS)
 N_LO, N_HI = (-1, 3) if THOROUGH else (0, 2)             # repeat count for *=
-NSHAPE = 7 if THOROUGH else 4                            # value shapes
-NSEQ = 6 if THOROUGH else 4                              # iterable-argument shapes
+NSHAPE = 7 if THOROUGH else 4                            # value shapes (see value())
+NSEQ = 6 if THOROUGH else 4                              # iterable-argument shapes (see iterable() / mapping())
+NONLIST = (1, 2, 5) if THOROUGH else (1, 2)              # iterable shapes that are neither list nor dict: tuple, iterator, generator
+NNONLIST = len(NONLIST)
 
 db = None
 J = R = None
@@ -96,10 +101,16 @@ TARGETS = {
 }
 
 
+KIND = {'ia': 'int', 'sa': 'str', 'fa': 'float'}
+for _t in TARGETS: KIND.setdefault(_t, 'json')
+LIST_TARGETS = ('jl0', 'jl1', 'jl2', 'jl1b', 'ia', 'sa', 'fa')
+DICT_TARGETS = ('jd0', 'jd1', 'jd2', 'jd1b')
+
+
 class Args(object):
     __slots__ = ('i', 'lo', 'hi', 'st', 'k', 'n', 'v', 'shape', 'seq', 'kind')
 
-    def __init__(self, i=0, lo=None, hi=None, st=None, k=0, n=0, v=0, shape=0, seq=0, kind='json'):
+    def __init__(self, i=0, lo=None, hi=None, st=0, k=0, n=0, v=0, shape=0, seq=0, kind='json'):
         self.i, self.lo, self.hi, self.st, self.k, self.n, self.v, self.shape, self.seq, self.kind = i, lo, hi, st, k, n, v, shape, seq, kind
 
 
@@ -131,7 +142,7 @@ def value(A):
         if s == 1: return v              # wrong item type
         return 'b'
     if A.kind == 'float':
-        if s == 0: return v * 0.5
+        if s == 0: return 0.5 if v > 0 else 2.5
         if s == 1: return 'a'            # wrong item type
         if s == 2: return v              # an int: accepted through __index__
         return 0.5
@@ -164,7 +175,7 @@ def mapping(A, c):
 
 
 def _sl(A):
-    return slice(A.lo, A.hi, A.st)
+    return slice(A.lo, A.hi, STEPS[A.st])
 
 
 # ---- operation tables -------------------------------------------------------------------------------------------------
@@ -187,7 +198,15 @@ def _stmt_ior(c, A, o, name, parent, key):
     else: parent[key] = operator.ior(parent[key], mapping(A, c))
 
 
-LIST_ITEM_OPS = [
+def _stmt_assign(c, A, o, name, parent, key):
+    # `obj.attr = new value` / `parent[key] = new value`: the new value must be tracked from then on (rule W)
+    x = value(A)
+    if A.kind != 'json': x = [x]
+    if parent is None: setattr(o, name, x)
+    else: parent[key] = x
+
+
+LIST_OPS = [
     ('append', lambda c, A: c.append(value(A))),
     ('insert', lambda c, A: c.insert(A.i, value(A))),
     ('setitem', lambda c, A: c.__setitem__(A.i, value(A))),
@@ -195,22 +214,28 @@ LIST_ITEM_OPS = [
     ('pop', lambda c, A: c.pop()),
     ('pop_i', lambda c, A: c.pop(A.i)),
     ('remove', lambda c, A: c.remove(value(A))),
-]
-LIST_BULK_OPS = [
     ('extend', lambda c, A: c.extend(iterable(A, c))),
-    ('iadd', lambda c, A: operator.iadd(c, iterable(A, c))),           # t = obj.attr[...]; t += x
-    ('imul', lambda c, A: operator.imul(c, A.n)),                      # t = obj.attr[...]; t *= n
     ('reverse', lambda c, A: c.reverse()),
     ('sort', lambda c, A: c.sort()),
     ('sort_reverse', lambda c, A: c.sort(reverse=True)),
     ('sort_key', lambda c, A: c.sort(key=lambda x: -x if isinstance(x, (int, float)) else 0)),
     ('clear', lambda c, A: c.clear()),
+    ('stmt_iadd', _stmt_iadd),                                         # obj.attr += x   /  parent[key] += x
+    ('stmt_imul', _stmt_imul),                                         # obj.attr *= n   /  parent[key] *= n
+    ('stmt_assign', _stmt_assign),
+]
+LIST_ALIAS_OPS = [
+    ('iadd', lambda c, A: operator.iadd(c, iterable(A, c))),           # t = obj.attr[...]; t += x
+    ('imul', lambda c, A: operator.imul(c, A.n)),                      # t = obj.attr[...]; t *= n
+    ('stmt_iadd', _stmt_iadd),                                         # rule W for the statement forms (rule M for them is in LIST_OPS)
+    ('stmt_imul', _stmt_imul),
 ]
 LIST_SLICE_OPS = [
     ('setslice', lambda c, A: c.__setitem__(_sl(A), iterable(A, c))),
     ('delslice', lambda c, A: c.__delitem__(_sl(A))),
 ]
-LIST_STMT_OPS = [('stmt_iadd', _stmt_iadd), ('stmt_imul', _stmt_imul)]
+LIST_ITER_OPS = [LIST_OPS[7], LIST_SLICE_OPS[0], LIST_OPS[13]]         # the operations that take an iterable of new items
+assert [n for n, _ in LIST_ITER_OPS] == ['extend', 'setslice', 'stmt_iadd']
 
 DICT_OPS = [
     ('setitem', lambda c, A: c.__setitem__(KEYS[A.k], value(A))),
@@ -224,9 +249,13 @@ DICT_OPS = [
     ('update', lambda c, A: c.update(mapping(A, c))),
     ('update_kw', lambda c, A: c.update(**{KEYS[A.k]: value(A)})),
     ('update_both', lambda c, A: c.update(mapping(A, c), z=value(A))),
-    ('ior', lambda c, A: operator.ior(c, mapping(A, c))),              # t = obj.attr[...]; t |= x
+    ('stmt_ior', _stmt_ior),                                           # obj.attr |= x   /  parent[key] |= x
+    ('stmt_assign', _stmt_assign),
 ]
-DICT_STMT_OPS = [('stmt_ior', _stmt_ior)]
+DICT_ALIAS_OPS = [
+    ('ior', lambda c, A: operator.ior(c, mapping(A, c))),              # t = obj.attr[...]; t |= x
+    ('stmt_ior', _stmt_ior),                                           # rule W for the statement form (rule M for it is in DICT_OPS)
+]
 
 LIST_READS = [
     ('len', lambda c, A: len(c)),
@@ -276,7 +305,7 @@ DICT_READS = [
 # classification of every public name of list / dict (checked structurally in checks/c28.py against dir(list)/dir(dict) and
 # against a concrete probe of plain containers): which table entries exercise it
 LIST_NAMES = {
-    '__setitem__': ['setitem', 'setslice'], '__delitem__': ['delitem', 'delslice'], '__iadd__': ['iadd', 'stmt_iadd'],
+    '__setitem__': ['setitem', 'setslice', 'stmt_assign'], '__delitem__': ['delitem', 'delslice'], '__iadd__': ['iadd', 'stmt_iadd'],
     '__imul__': ['imul', 'stmt_imul'], 'append': ['append'], 'extend': ['extend'], 'insert': ['insert'], 'pop': ['pop', 'pop_i'],
     'remove': ['remove'], 'reverse': ['reverse'], 'sort': ['sort', 'sort_reverse', 'sort_key'], 'clear': ['clear'],
 }
@@ -286,7 +315,7 @@ LIST_READ_NAMES = {
     '__mul__': ['mul'], '__rmul__': ['rmul'], '__eq__': ['eq'], '__lt__': ['lt'], '__repr__': ['repr'],
 }
 DICT_NAMES = {
-    '__setitem__': ['setitem'], '__delitem__': ['delitem'], '__ior__': ['ior', 'stmt_ior'], 'setdefault': ['setdefault', 'setdefault_v'],
+    '__setitem__': ['setitem', 'stmt_assign'], '__delitem__': ['delitem'], '__ior__': ['ior', 'stmt_ior'], 'setdefault': ['setdefault', 'setdefault_v'],
     'pop': ['pop', 'pop_default'], 'popitem': ['popitem'], 'clear': ['clear'], 'update': ['update', 'update_kw', 'update_both'],
 }
 DICT_READ_NAMES = {
@@ -342,14 +371,15 @@ def _queued(o):
     return False
 
 
-def mutate(target, table, op, A, check):
-    """check: 'M' (mutation rule) or 'W' (wrapping rule)"""
+def mutate(target, table, op, A):
+    """one operation on a freshly loaded object; returns (M holds, W holds)"""
     from pony.orm import db_session, rollback
     _fresh()
+    A.kind = KIND[target]
     with db_session:
         try:
             o, attr, aname, root, c, parent, key = _load(target)
-            if not (o._wbits_ == 0 and o._status_ == 'loaded' and wrapped(root, o, attr)): return False
+            if not (o._wbits_ == 0 and o._status_ == 'loaded' and wrapped(root, o, attr)): return False, False
             before = plain(root)
             name, f = table[op]
             try:
@@ -358,11 +388,10 @@ def mutate(target, table, op, A, check):
             except Exception:
                 pass
             now = o._vals_[attr]
-            if check == 'W':
-                return wrapped(now, o, attr)
+            w = wrapped(now, o, attr)
             if plain(now) == before:
-                return True
-            return bool(o._wbits_ & o._bits_[attr]) and o._status_ == 'modified' and _queued(o)
+                return True, w
+            return (bool(o._wbits_ & o._bits_[attr]) and o._status_ == 'modified' and _queued(o)), w
         finally:
             rollback()
 
@@ -370,6 +399,7 @@ def mutate(target, table, op, A, check):
 def read(target, table, op, A):
     from pony.orm import db_session, rollback
     _fresh()
+    A.kind = KIND[target]
     with db_session:
         try:
             o, attr, aname, root, c, parent, key = _load(target)
@@ -383,22 +413,586 @@ def read(target, table, op, A):
             rollback()
 
 
-def probe_item(op: int, i: int, v: int, shape: int) -> bool:
+# ---- harness bodies ---------------------------------------------------------------------------------------------------
+
+def _l_ops(t, op, i, n, v, shape, seq):
+    m, w = mutate(t, LIST_OPS, op, Args(i=i, n=n, v=v, shape=shape, seq=seq))
+    # W for tuple/iterator arguments is asserted separately (l_wn_*), W for the in-place operator statements in l_alias_*
+    return m and (w or seq in NONLIST or LIST_OPS[op][0] == 'stmt_iadd')
+
+
+def _l_slice(t, op, lo, hi, st, v, shape, seq):
+    m, w = mutate(t, LIST_SLICE_OPS, op, Args(lo=lo, hi=hi, st=st, v=v, shape=shape, seq=seq))
+    return m and (w or seq in NONLIST)
+
+
+def _l_alias(t, op, n, v, shape, seq):
+    m, w = mutate(t, LIST_ALIAS_OPS, op, Args(n=n, v=v, shape=shape, seq=seq))
+    return m and w
+
+
+def _l_wn(t, op, lo, hi, v, shape, sq):
+    m, w = mutate(t, LIST_ITER_OPS, op, Args(lo=lo, hi=hi, v=v, shape=shape, seq=NONLIST[sq]))
+    return w
+
+
+def _l_read(t, op, i, lo, hi, st, n, v, shape):
+    return read(t, LIST_READS, op, Args(i=i, lo=lo, hi=hi, st=st, n=n, v=v, shape=shape))
+
+
+def _d_ops(t, op, k, v, shape, seq):
+    m, w = mutate(t, DICT_OPS, op, Args(k=k, v=v, shape=shape, seq=seq))
+    return m and (w or DICT_OPS[op][0] == 'stmt_ior')      # W for `|=` statements is asserted in d_alias_*
+
+
+def _d_alias(t, op, k, v, shape, seq):
+    m, w = mutate(t, DICT_ALIAS_OPS, op, Args(k=k, v=v, shape=shape, seq=seq))
+    return m and w
+
+
+def _d_read(t, op, k, v, shape):
+    return read(t, DICT_READS, op, Args(k=k, v=v, shape=shape))
+
+
+# ---- harnesses (one per target container and operation family; generated text, see the bottom of checks/c28.py) --------
+
+
+def l_ops_jl0(op: int, i: int, n: int, v: int, shape: int, seq: int) -> bool:
     """
-    pre: 0 <= op < len(LIST_ITEM_OPS)
+    pre: 0 <= op < len(LIST_OPS)
     pre: IDX_LO <= i <= IDX_HI
-    pre: 0 <= shape < NSHAPE
-    post: _
-    """
-    return ok(mutate('jl1', LIST_ITEM_OPS, op, Args(i=i, v=v, shape=shape), 'M'))
-
-
-def probe_bulk(op: int, n: int, v: int, shape: int, seq: int) -> bool:
-    """
-    pre: 0 <= op < len(LIST_BULK_OPS)
     pre: N_LO <= n <= N_HI
     pre: 0 <= shape < NSHAPE
     pre: 0 <= seq < NSEQ
     post: _
     """
-    return ok(mutate('jl1', LIST_BULK_OPS, op, Args(n=n, v=v, shape=shape, seq=seq), 'M'))
+    return ok(_l_ops('jl0', op, i, n, v, shape, seq))
+
+
+def l_ops_jl1(op: int, i: int, n: int, v: int, shape: int, seq: int) -> bool:
+    """
+    pre: 0 <= op < len(LIST_OPS)
+    pre: IDX_LO <= i <= IDX_HI
+    pre: N_LO <= n <= N_HI
+    pre: 0 <= shape < NSHAPE
+    pre: 0 <= seq < NSEQ
+    post: _
+    """
+    return ok(_l_ops('jl1', op, i, n, v, shape, seq))
+
+
+def l_ops_jl2(op: int, i: int, n: int, v: int, shape: int, seq: int) -> bool:
+    """
+    pre: 0 <= op < len(LIST_OPS)
+    pre: IDX_LO <= i <= IDX_HI
+    pre: N_LO <= n <= N_HI
+    pre: 0 <= shape < NSHAPE
+    pre: 0 <= seq < NSEQ
+    post: _
+    """
+    return ok(_l_ops('jl2', op, i, n, v, shape, seq))
+
+
+def l_ops_jl1b(op: int, i: int, n: int, v: int, shape: int, seq: int) -> bool:
+    """
+    pre: 0 <= op < len(LIST_OPS)
+    pre: IDX_LO <= i <= IDX_HI
+    pre: N_LO <= n <= N_HI
+    pre: 0 <= shape < NSHAPE
+    pre: 0 <= seq < NSEQ
+    post: _
+    """
+    return ok(_l_ops('jl1b', op, i, n, v, shape, seq))
+
+
+def l_ops_ia(op: int, i: int, n: int, v: int, shape: int, seq: int) -> bool:
+    """
+    pre: 0 <= op < len(LIST_OPS)
+    pre: IDX_LO <= i <= IDX_HI
+    pre: N_LO <= n <= N_HI
+    pre: 0 <= shape < NSHAPE
+    pre: 0 <= seq < NSEQ
+    post: _
+    """
+    return ok(_l_ops('ia', op, i, n, v, shape, seq))
+
+
+def l_ops_sa(op: int, i: int, n: int, v: int, shape: int, seq: int) -> bool:
+    """
+    pre: 0 <= op < len(LIST_OPS)
+    pre: IDX_LO <= i <= IDX_HI
+    pre: N_LO <= n <= N_HI
+    pre: 0 <= shape < NSHAPE
+    pre: 0 <= seq < NSEQ
+    post: _
+    """
+    return ok(_l_ops('sa', op, i, n, v, shape, seq))
+
+
+def l_ops_fa(op: int, i: int, n: int, v: int, shape: int, seq: int) -> bool:
+    """
+    pre: 0 <= op < len(LIST_OPS)
+    pre: IDX_LO <= i <= IDX_HI
+    pre: N_LO <= n <= N_HI
+    pre: 0 <= shape < NSHAPE
+    pre: 0 <= seq < NSEQ
+    post: _
+    """
+    return ok(_l_ops('fa', op, i, n, v, shape, seq))
+
+
+def l_slice_jl0(op: int, lo: Opt[int], hi: Opt[int], st: int, v: int, shape: int, seq: int) -> bool:
+    """
+    pre: 0 <= op < len(LIST_SLICE_OPS)
+    pre: lo is None or SL_LO <= lo <= SL_HI
+    pre: hi is None or SL_LO <= hi <= SL_HI
+    pre: 0 <= st < NSTEP
+    pre: 0 <= shape < 3
+    pre: 0 <= seq < NSEQ
+    post: _
+    """
+    return ok(_l_slice('jl0', op, lo, hi, st, v, shape, seq))
+
+
+def l_slice_jl1(op: int, lo: Opt[int], hi: Opt[int], st: int, v: int, shape: int, seq: int) -> bool:
+    """
+    pre: 0 <= op < len(LIST_SLICE_OPS)
+    pre: lo is None or SL_LO <= lo <= SL_HI
+    pre: hi is None or SL_LO <= hi <= SL_HI
+    pre: 0 <= st < NSTEP
+    pre: 0 <= shape < 3
+    pre: 0 <= seq < NSEQ
+    post: _
+    """
+    return ok(_l_slice('jl1', op, lo, hi, st, v, shape, seq))
+
+
+def l_slice_jl2(op: int, lo: Opt[int], hi: Opt[int], st: int, v: int, shape: int, seq: int) -> bool:
+    """
+    pre: 0 <= op < len(LIST_SLICE_OPS)
+    pre: lo is None or SL_LO <= lo <= SL_HI
+    pre: hi is None or SL_LO <= hi <= SL_HI
+    pre: 0 <= st < NSTEP
+    pre: 0 <= shape < 3
+    pre: 0 <= seq < NSEQ
+    post: _
+    """
+    return ok(_l_slice('jl2', op, lo, hi, st, v, shape, seq))
+
+
+def l_slice_jl1b(op: int, lo: Opt[int], hi: Opt[int], st: int, v: int, shape: int, seq: int) -> bool:
+    """
+    pre: 0 <= op < len(LIST_SLICE_OPS)
+    pre: lo is None or SL_LO <= lo <= SL_HI
+    pre: hi is None or SL_LO <= hi <= SL_HI
+    pre: 0 <= st < NSTEP
+    pre: 0 <= shape < 3
+    pre: 0 <= seq < NSEQ
+    post: _
+    """
+    return ok(_l_slice('jl1b', op, lo, hi, st, v, shape, seq))
+
+
+def l_slice_ia(op: int, lo: Opt[int], hi: Opt[int], st: int, v: int, shape: int, seq: int) -> bool:
+    """
+    pre: 0 <= op < len(LIST_SLICE_OPS)
+    pre: lo is None or SL_LO <= lo <= SL_HI
+    pre: hi is None or SL_LO <= hi <= SL_HI
+    pre: 0 <= st < NSTEP
+    pre: 0 <= shape < 3
+    pre: 0 <= seq < NSEQ
+    post: _
+    """
+    return ok(_l_slice('ia', op, lo, hi, st, v, shape, seq))
+
+
+def l_slice_sa(op: int, lo: Opt[int], hi: Opt[int], st: int, v: int, shape: int, seq: int) -> bool:
+    """
+    pre: 0 <= op < len(LIST_SLICE_OPS)
+    pre: lo is None or SL_LO <= lo <= SL_HI
+    pre: hi is None or SL_LO <= hi <= SL_HI
+    pre: 0 <= st < NSTEP
+    pre: 0 <= shape < 3
+    pre: 0 <= seq < NSEQ
+    post: _
+    """
+    return ok(_l_slice('sa', op, lo, hi, st, v, shape, seq))
+
+
+def l_slice_fa(op: int, lo: Opt[int], hi: Opt[int], st: int, v: int, shape: int, seq: int) -> bool:
+    """
+    pre: 0 <= op < len(LIST_SLICE_OPS)
+    pre: lo is None or SL_LO <= lo <= SL_HI
+    pre: hi is None or SL_LO <= hi <= SL_HI
+    pre: 0 <= st < NSTEP
+    pre: 0 <= shape < 3
+    pre: 0 <= seq < NSEQ
+    post: _
+    """
+    return ok(_l_slice('fa', op, lo, hi, st, v, shape, seq))
+
+
+def l_alias_jl0(op: int, n: int, v: int, shape: int, seq: int) -> bool:
+    """
+    pre: 0 <= op < len(LIST_ALIAS_OPS)
+    pre: N_LO <= n <= N_HI
+    pre: 0 <= shape < NSHAPE
+    pre: 0 <= seq < NSEQ
+    post: _
+    """
+    return ok(_l_alias('jl0', op, n, v, shape, seq))
+
+
+def l_alias_jl1(op: int, n: int, v: int, shape: int, seq: int) -> bool:
+    """
+    pre: 0 <= op < len(LIST_ALIAS_OPS)
+    pre: N_LO <= n <= N_HI
+    pre: 0 <= shape < NSHAPE
+    pre: 0 <= seq < NSEQ
+    post: _
+    """
+    return ok(_l_alias('jl1', op, n, v, shape, seq))
+
+
+def l_alias_jl2(op: int, n: int, v: int, shape: int, seq: int) -> bool:
+    """
+    pre: 0 <= op < len(LIST_ALIAS_OPS)
+    pre: N_LO <= n <= N_HI
+    pre: 0 <= shape < NSHAPE
+    pre: 0 <= seq < NSEQ
+    post: _
+    """
+    return ok(_l_alias('jl2', op, n, v, shape, seq))
+
+
+def l_alias_jl1b(op: int, n: int, v: int, shape: int, seq: int) -> bool:
+    """
+    pre: 0 <= op < len(LIST_ALIAS_OPS)
+    pre: N_LO <= n <= N_HI
+    pre: 0 <= shape < NSHAPE
+    pre: 0 <= seq < NSEQ
+    post: _
+    """
+    return ok(_l_alias('jl1b', op, n, v, shape, seq))
+
+
+def l_alias_ia(op: int, n: int, v: int, shape: int, seq: int) -> bool:
+    """
+    pre: 0 <= op < len(LIST_ALIAS_OPS)
+    pre: N_LO <= n <= N_HI
+    pre: 0 <= shape < NSHAPE
+    pre: 0 <= seq < NSEQ
+    post: _
+    """
+    return ok(_l_alias('ia', op, n, v, shape, seq))
+
+
+def l_alias_sa(op: int, n: int, v: int, shape: int, seq: int) -> bool:
+    """
+    pre: 0 <= op < len(LIST_ALIAS_OPS)
+    pre: N_LO <= n <= N_HI
+    pre: 0 <= shape < NSHAPE
+    pre: 0 <= seq < NSEQ
+    post: _
+    """
+    return ok(_l_alias('sa', op, n, v, shape, seq))
+
+
+def l_alias_fa(op: int, n: int, v: int, shape: int, seq: int) -> bool:
+    """
+    pre: 0 <= op < len(LIST_ALIAS_OPS)
+    pre: N_LO <= n <= N_HI
+    pre: 0 <= shape < NSHAPE
+    pre: 0 <= seq < NSEQ
+    post: _
+    """
+    return ok(_l_alias('fa', op, n, v, shape, seq))
+
+
+def l_wn_jl0(op: int, lo: Opt[int], hi: Opt[int], v: int, shape: int, sq: int) -> bool:
+    """
+    pre: 0 <= op < len(LIST_ITER_OPS)
+    pre: lo is None or SL_LO <= lo <= SL_HI
+    pre: hi is None or SL_LO <= hi <= SL_HI
+    pre: 0 <= shape < NSHAPE
+    pre: 0 <= sq < NNONLIST
+    post: _
+    """
+    return ok(_l_wn('jl0', op, lo, hi, v, shape, sq))
+
+
+def l_wn_jl1(op: int, lo: Opt[int], hi: Opt[int], v: int, shape: int, sq: int) -> bool:
+    """
+    pre: 0 <= op < len(LIST_ITER_OPS)
+    pre: lo is None or SL_LO <= lo <= SL_HI
+    pre: hi is None or SL_LO <= hi <= SL_HI
+    pre: 0 <= shape < NSHAPE
+    pre: 0 <= sq < NNONLIST
+    post: _
+    """
+    return ok(_l_wn('jl1', op, lo, hi, v, shape, sq))
+
+
+def l_wn_jl2(op: int, lo: Opt[int], hi: Opt[int], v: int, shape: int, sq: int) -> bool:
+    """
+    pre: 0 <= op < len(LIST_ITER_OPS)
+    pre: lo is None or SL_LO <= lo <= SL_HI
+    pre: hi is None or SL_LO <= hi <= SL_HI
+    pre: 0 <= shape < NSHAPE
+    pre: 0 <= sq < NNONLIST
+    post: _
+    """
+    return ok(_l_wn('jl2', op, lo, hi, v, shape, sq))
+
+
+def l_wn_jl1b(op: int, lo: Opt[int], hi: Opt[int], v: int, shape: int, sq: int) -> bool:
+    """
+    pre: 0 <= op < len(LIST_ITER_OPS)
+    pre: lo is None or SL_LO <= lo <= SL_HI
+    pre: hi is None or SL_LO <= hi <= SL_HI
+    pre: 0 <= shape < NSHAPE
+    pre: 0 <= sq < NNONLIST
+    post: _
+    """
+    return ok(_l_wn('jl1b', op, lo, hi, v, shape, sq))
+
+
+def l_read_jl0(op: int, i: int, lo: Opt[int], hi: Opt[int], st: int, n: int, v: int, shape: int) -> bool:
+    """
+    pre: 0 <= op < len(LIST_READS)
+    pre: IDX_LO <= i <= IDX_HI
+    pre: lo is None or SL_LO <= lo <= SL_HI
+    pre: hi is None or SL_LO <= hi <= SL_HI
+    pre: 0 <= st < NSTEP
+    pre: N_LO <= n <= N_HI
+    pre: 0 <= shape < NSHAPE
+    post: _
+    """
+    return ok(_l_read('jl0', op, i, lo, hi, st, n, v, shape))
+
+
+def l_read_jl1(op: int, i: int, lo: Opt[int], hi: Opt[int], st: int, n: int, v: int, shape: int) -> bool:
+    """
+    pre: 0 <= op < len(LIST_READS)
+    pre: IDX_LO <= i <= IDX_HI
+    pre: lo is None or SL_LO <= lo <= SL_HI
+    pre: hi is None or SL_LO <= hi <= SL_HI
+    pre: 0 <= st < NSTEP
+    pre: N_LO <= n <= N_HI
+    pre: 0 <= shape < NSHAPE
+    post: _
+    """
+    return ok(_l_read('jl1', op, i, lo, hi, st, n, v, shape))
+
+
+def l_read_jl2(op: int, i: int, lo: Opt[int], hi: Opt[int], st: int, n: int, v: int, shape: int) -> bool:
+    """
+    pre: 0 <= op < len(LIST_READS)
+    pre: IDX_LO <= i <= IDX_HI
+    pre: lo is None or SL_LO <= lo <= SL_HI
+    pre: hi is None or SL_LO <= hi <= SL_HI
+    pre: 0 <= st < NSTEP
+    pre: N_LO <= n <= N_HI
+    pre: 0 <= shape < NSHAPE
+    post: _
+    """
+    return ok(_l_read('jl2', op, i, lo, hi, st, n, v, shape))
+
+
+def l_read_jl1b(op: int, i: int, lo: Opt[int], hi: Opt[int], st: int, n: int, v: int, shape: int) -> bool:
+    """
+    pre: 0 <= op < len(LIST_READS)
+    pre: IDX_LO <= i <= IDX_HI
+    pre: lo is None or SL_LO <= lo <= SL_HI
+    pre: hi is None or SL_LO <= hi <= SL_HI
+    pre: 0 <= st < NSTEP
+    pre: N_LO <= n <= N_HI
+    pre: 0 <= shape < NSHAPE
+    post: _
+    """
+    return ok(_l_read('jl1b', op, i, lo, hi, st, n, v, shape))
+
+
+def l_read_ia(op: int, i: int, lo: Opt[int], hi: Opt[int], st: int, n: int, v: int, shape: int) -> bool:
+    """
+    pre: 0 <= op < len(LIST_READS)
+    pre: IDX_LO <= i <= IDX_HI
+    pre: lo is None or SL_LO <= lo <= SL_HI
+    pre: hi is None or SL_LO <= hi <= SL_HI
+    pre: 0 <= st < NSTEP
+    pre: N_LO <= n <= N_HI
+    pre: 0 <= shape < NSHAPE
+    post: _
+    """
+    return ok(_l_read('ia', op, i, lo, hi, st, n, v, shape))
+
+
+def l_read_sa(op: int, i: int, lo: Opt[int], hi: Opt[int], st: int, n: int, v: int, shape: int) -> bool:
+    """
+    pre: 0 <= op < len(LIST_READS)
+    pre: IDX_LO <= i <= IDX_HI
+    pre: lo is None or SL_LO <= lo <= SL_HI
+    pre: hi is None or SL_LO <= hi <= SL_HI
+    pre: 0 <= st < NSTEP
+    pre: N_LO <= n <= N_HI
+    pre: 0 <= shape < NSHAPE
+    post: _
+    """
+    return ok(_l_read('sa', op, i, lo, hi, st, n, v, shape))
+
+
+def l_read_fa(op: int, i: int, lo: Opt[int], hi: Opt[int], st: int, n: int, v: int, shape: int) -> bool:
+    """
+    pre: 0 <= op < len(LIST_READS)
+    pre: IDX_LO <= i <= IDX_HI
+    pre: lo is None or SL_LO <= lo <= SL_HI
+    pre: hi is None or SL_LO <= hi <= SL_HI
+    pre: 0 <= st < NSTEP
+    pre: N_LO <= n <= N_HI
+    pre: 0 <= shape < NSHAPE
+    post: _
+    """
+    return ok(_l_read('fa', op, i, lo, hi, st, n, v, shape))
+
+
+def d_ops_jd0(op: int, k: int, v: int, shape: int, seq: int) -> bool:
+    """
+    pre: 0 <= op < len(DICT_OPS)
+    pre: 0 <= k < 3
+    pre: 0 <= shape < NSHAPE
+    pre: 0 <= seq < NSEQ
+    post: _
+    """
+    return ok(_d_ops('jd0', op, k, v, shape, seq))
+
+
+def d_ops_jd1(op: int, k: int, v: int, shape: int, seq: int) -> bool:
+    """
+    pre: 0 <= op < len(DICT_OPS)
+    pre: 0 <= k < 3
+    pre: 0 <= shape < NSHAPE
+    pre: 0 <= seq < NSEQ
+    post: _
+    """
+    return ok(_d_ops('jd1', op, k, v, shape, seq))
+
+
+def d_ops_jd2(op: int, k: int, v: int, shape: int, seq: int) -> bool:
+    """
+    pre: 0 <= op < len(DICT_OPS)
+    pre: 0 <= k < 3
+    pre: 0 <= shape < NSHAPE
+    pre: 0 <= seq < NSEQ
+    post: _
+    """
+    return ok(_d_ops('jd2', op, k, v, shape, seq))
+
+
+def d_ops_jd1b(op: int, k: int, v: int, shape: int, seq: int) -> bool:
+    """
+    pre: 0 <= op < len(DICT_OPS)
+    pre: 0 <= k < 3
+    pre: 0 <= shape < NSHAPE
+    pre: 0 <= seq < NSEQ
+    post: _
+    """
+    return ok(_d_ops('jd1b', op, k, v, shape, seq))
+
+
+def d_alias_jd0(op: int, k: int, v: int, shape: int, seq: int) -> bool:
+    """
+    pre: 0 <= op < len(DICT_ALIAS_OPS)
+    pre: 0 <= k < 3
+    pre: 0 <= shape < NSHAPE
+    pre: 0 <= seq < NSEQ
+    post: _
+    """
+    return ok(_d_alias('jd0', op, k, v, shape, seq))
+
+
+def d_alias_jd1(op: int, k: int, v: int, shape: int, seq: int) -> bool:
+    """
+    pre: 0 <= op < len(DICT_ALIAS_OPS)
+    pre: 0 <= k < 3
+    pre: 0 <= shape < NSHAPE
+    pre: 0 <= seq < NSEQ
+    post: _
+    """
+    return ok(_d_alias('jd1', op, k, v, shape, seq))
+
+
+def d_alias_jd2(op: int, k: int, v: int, shape: int, seq: int) -> bool:
+    """
+    pre: 0 <= op < len(DICT_ALIAS_OPS)
+    pre: 0 <= k < 3
+    pre: 0 <= shape < NSHAPE
+    pre: 0 <= seq < NSEQ
+    post: _
+    """
+    return ok(_d_alias('jd2', op, k, v, shape, seq))
+
+
+def d_alias_jd1b(op: int, k: int, v: int, shape: int, seq: int) -> bool:
+    """
+    pre: 0 <= op < len(DICT_ALIAS_OPS)
+    pre: 0 <= k < 3
+    pre: 0 <= shape < NSHAPE
+    pre: 0 <= seq < NSEQ
+    post: _
+    """
+    return ok(_d_alias('jd1b', op, k, v, shape, seq))
+
+
+def d_read_jd0(op: int, k: int, v: int, shape: int) -> bool:
+    """
+    pre: 0 <= op < len(DICT_READS)
+    pre: 0 <= k < 3
+    pre: 0 <= shape < NSHAPE
+    post: _
+    """
+    return ok(_d_read('jd0', op, k, v, shape))
+
+
+def d_read_jd1(op: int, k: int, v: int, shape: int) -> bool:
+    """
+    pre: 0 <= op < len(DICT_READS)
+    pre: 0 <= k < 3
+    pre: 0 <= shape < NSHAPE
+    post: _
+    """
+    return ok(_d_read('jd1', op, k, v, shape))
+
+
+def d_read_jd2(op: int, k: int, v: int, shape: int) -> bool:
+    """
+    pre: 0 <= op < len(DICT_READS)
+    pre: 0 <= k < 3
+    pre: 0 <= shape < NSHAPE
+    post: _
+    """
+    return ok(_d_read('jd2', op, k, v, shape))
+
+
+def d_read_jd1b(op: int, k: int, v: int, shape: int) -> bool:
+    """
+    pre: 0 <= op < len(DICT_READS)
+    pre: 0 <= k < 3
+    pre: 0 <= shape < NSHAPE
+    post: _
+    """
+    return ok(_d_read('jd1b', op, k, v, shape))
+
+
+HARNESSES = ['l_ops_jl0', 'l_ops_jl1', 'l_ops_jl2', 'l_ops_jl1b', 'l_ops_ia', 'l_ops_sa', 'l_ops_fa', 'l_slice_jl0', 'l_slice_jl1', 'l_slice_jl2', 'l_slice_jl1b', 'l_slice_ia', 'l_slice_sa', 'l_slice_fa', 'l_alias_jl0', 'l_alias_jl1', 'l_alias_jl2', 'l_alias_jl1b', 'l_alias_ia', 'l_alias_sa', 'l_alias_fa', 'l_wn_jl0', 'l_wn_jl1', 'l_wn_jl2', 'l_wn_jl1b', 'l_read_jl0', 'l_read_jl1', 'l_read_jl2', 'l_read_jl1b', 'l_read_ia', 'l_read_sa', 'l_read_fa', 'd_ops_jd0', 'd_ops_jd1', 'd_ops_jd2', 'd_ops_jd1b', 'd_alias_jd0', 'd_alias_jd1', 'd_alias_jd2', 'd_alias_jd1b', 'd_read_jd0', 'd_read_jd1', 'd_read_jd2', 'd_read_jd1b']
+
+if os.environ.get('C28_DEBUG'):
+    import atexit
+    _N = [0]
+    _orig_mutate, _orig_read = mutate, read
+    def mutate(*a, **k):
+        _N[0] += 1
+        return _orig_mutate(*a, **k)
+    def read(*a, **k):
+        _N[0] += 1
+        return _orig_read(*a, **k)
+    atexit.register(lambda: _N[0] and print('PATHS', _N[0], file=open('/tmp/c28_paths.log', 'a')))
